@@ -146,6 +146,10 @@ def make_equivariance(n, d, kind):
             b = [SymReal.const(0)] * d
             y = [[a[j] * x[i][j] for j in range(d)] for i in range(n)]
             perm = list(range(d))
+        else:
+            x = [[real(ctx, f"x{i}_{j}") for j in range(d)] for i in range(n)]
+        if kind == "scale-concrete":
+            pass
         elif kind == "affine":
             a = [real(ctx, f"a{j}") for j in range(d)]
             b = [real(ctx, f"b{j}") for j in range(d)]
